@@ -59,7 +59,7 @@ MANIFEST = {
 
 
 def correspondence(ctx) -> CorrResult:
-    n = int(os.environ.get("VERIF_KF_CASES", ctx.scale(200, 4000)))      # development knob
+    n = int(os.environ.get("VERIF_KF_CASES", ctx.scale(200, 1200)))      # development knob
     return kc.correspondence(ctx, n_cases=n, n_exact=ctx.scale(3, 12) if n >= 100 else 0,
                              max_periods=ctx.scale(8, 24), pid=ID)
 
